@@ -67,65 +67,65 @@ Proof. apply map_length. Qed.
 
 (* code that is not inside a loop has no placeholders: break / continue are not allowed there, and a loop patches its body *)
 Definition stmt_nph (f : nat) : Prop :=
-  forall s top k base, sheight s <= f -> wf_stmt top false k s = true -> no_ph (fst (stmt_code k base s)).
+  forall s n k scope base, sheight s <= f -> wf_stmt false n s = true -> no_ph (fst (stmt_code k scope base s)).
 
-Lemma list_no_ph f : stmt_nph f -> forall l top k base, max_height l <= f -> wf_stmts top false k l = true ->
-  no_ph (fst (scode k base l)).
+Lemma list_no_ph f : stmt_nph f -> forall l n k scope base, max_height l <= f -> wf_stmts false n l = true ->
+  no_ph (fst (scode k scope base l)).
 Proof.
-  intros Hs. induction l as [|s r IH]; intros top k base Hh Hwf; [intros x Hx; contradiction|].
+  intros Hs. induction l as [|s r IH]; intros n k scope base Hh Hwf; [intros x Hx; contradiction|].
   rewrite wf_stmts_cons in Hwf. apply andb_true_iff in Hwf. destruct Hwf as [Hws Hwr]. rewrite max_height_cons in Hh.
-  pose proof (Hs s top k base ltac:(lia) Hws) as H1.
+  pose proof (Hs s n k scope base ltac:(lia) Hws) as H1.
   destruct r as [|s2 r2].
-  - rewrite scode_single. destruct (stmt_code k base s) as [c ks]. cbn [fst] in *.
+  - rewrite scode_single. destruct (stmt_code k scope base s) as [c ks]. cbn [fst] in *.
     apply no_ph_app; [exact H1|]. destruct (is_expr_stmt s); [intros x Hx; contradiction|apply no_ph_I].
-  - rewrite scode_cons2. destruct (stmt_code k base s) as [c ks]. cbn [fst] in H1.
-    pose proof (IH top (next_k k s) (base + length ks) ltac:(lia) Hwr) as H2.
-    destruct (scode (next_k k s) (base + length ks) (s2 :: r2)) as [cr kr]. cbn [fst] in *.
+  - rewrite scode_cons2. destruct (stmt_code k scope base s) as [c ks]. cbn [fst] in H1.
+    pose proof (IH (next_n n s) (k + nd s) (next_scope k scope s) (base + length ks) ltac:(lia) Hwr) as H2.
+    destruct (scode (k + nd s) (next_scope k scope s) (base + length ks) (s2 :: r2)) as [cr kr]. cbn [fst] in *.
     apply no_ph_app; [exact H1|]. apply no_ph_app; [|exact H2].
     destruct (is_expr_stmt s); [apply no_ph_I|intros x Hx; contradiction].
 Qed.
 
-Lemma block_no_ph f : stmt_nph f -> forall l k base, max_height l <= f -> wf_stmts false false k l = true ->
-  no_ph (fst (block_code k base l)).
+Lemma block_no_ph f : stmt_nph f -> forall l n k scope base, max_height l <= f -> wf_stmts false n l = true ->
+  no_ph (fst (block_code k scope base l)).
 Proof.
-  intros Hs l k base Hh Hwf. destruct l as [|s r]; [rewrite block_code_nil; apply no_ph_I|].
-  rewrite block_code_cons. exact (list_no_ph f Hs (s :: r) false k base Hh Hwf).
+  intros Hs l n k scope base Hh Hwf. destruct l as [|s r]; [rewrite block_code_nil; apply no_ph_I|].
+  rewrite block_code_cons. exact (list_no_ph f Hs (s :: r) n k scope base Hh Hwf).
 Qed.
 
 Lemma stmt_no_ph : forall f, stmt_nph f.
 Proof.
-  induction f as [f IH] using lt_wf_ind. intros s top k base Hh Hwf.
+  induction f as [f IH] using lt_wf_ind. intros s n k scope base Hh Hwf.
   destruct s as [e|i e|i o e|i up|e|c t e|c t|c b| |].
-  - cbn [stmt_code]. destruct (cexp base e). apply no_ph_I.
-  - cbn [stmt_code]. destruct (cexp base e). apply no_ph_I.
-  - cbn [stmt_code]. destruct (cexp base e). apply no_ph_I.
+  - cbn [stmt_code]. destruct (cexp_at (slot_of scope) base e). apply no_ph_I.
+  - cbn [stmt_code]. destruct (cexp_at (slot_of scope) base e). apply no_ph_I.
+  - cbn [stmt_code]. destruct (cexp_at (slot_of scope) base e). apply no_ph_I.
   - cbn [stmt_code fst]. apply no_ph_I.
-  - cbn [stmt_code islots fst]. apply no_ph_I.
+  - cbn [stmt_code]. destruct (cexp_at (slot_of scope) base e). apply no_ph_I.
   - rewrite wf_SIf in Hwf. apply andb_true_iff in Hwf. destruct Hwf as [Hwct Hwe].
     apply andb_true_iff in Hwct. destruct Hwct as [Hwc Hwt].
     rewrite sheight_SIf in Hh. destruct f as [|f]; [lia|].
-    rewrite code_SIf. destruct (cexp base c) as [cc kc].
-    pose proof (block_no_ph f (IH f ltac:(lia)) t k (base + length kc) ltac:(lia) Hwt) as Ht.
-    destruct (block_code k (base + length kc) t) as [ct kt].
-    pose proof (block_no_ph f (IH f ltac:(lia)) e k (base + length kc + length kt) ltac:(lia) Hwe) as He.
-    destruct (block_code k (base + length kc + length kt) e) as [ce ke]. cbn [fst] in *.
+    rewrite code_SIf. destruct (cexp_at (slot_of scope) base c) as [cc kc].
+    pose proof (block_no_ph f (IH f ltac:(lia)) t n k scope (base + length kc) ltac:(lia) Hwt) as Ht.
+    destruct (block_code k scope (base + length kc) t) as [ct kt].
+    pose proof (block_no_ph f (IH f ltac:(lia)) e n (k + ndecls t) scope (base + length kc + length kt) ltac:(lia) Hwe) as He.
+    destruct (block_code (k + ndecls t) scope (base + length kc + length kt) e) as [ce ke]. cbn [fst] in *.
     repeat apply no_ph_app; try apply no_ph_I; assumption.
   - rewrite wf_SIf1 in Hwf. apply andb_true_iff in Hwf. destruct Hwf as [Hwc Hwt].
     rewrite sheight_SIf1 in Hh. destruct f as [|f]; [lia|].
-    rewrite code_SIf1. destruct (cexp base c) as [cc kc].
-    pose proof (block_no_ph f (IH f ltac:(lia)) t k (base + length kc) ltac:(lia) Hwt) as Ht.
-    destruct (block_code k (base + length kc) t) as [ct kt]. cbn [fst] in *.
+    rewrite code_SIf1. destruct (cexp_at (slot_of scope) base c) as [cc kc].
+    pose proof (block_no_ph f (IH f ltac:(lia)) t n k scope (base + length kc) ltac:(lia) Hwt) as Ht.
+    destruct (block_code k scope (base + length kc) t) as [ct kt]. cbn [fst] in *.
     repeat apply no_ph_app; try apply no_ph_I; assumption.
-  - rewrite code_SWhile. destruct (cexp base c) as [cc kc]. destruct (block_code k (base + length kc) b) as [cb kb].
+  - rewrite code_SWhile. destruct (cexp_at (slot_of scope) base c) as [cc kc]. destruct (block_code k scope (base + length kc) b) as [cb kb].
     cbv zeta. cbn [fst]. apply no_ph_app; [apply no_ph_patch|apply no_ph_I].
   - discriminate.
   - discriminate.
 Qed.
 
-Lemma scode_no_ph l top k base : wf_stmts top false k l = true -> no_ph (fst (scode k base l)).
-Proof. intros H. exact (list_no_ph (max_height l) (stmt_no_ph _) l top k base (le_n _) H). Qed.
-Lemma block_code_no_ph l k base : wf_stmts false false k l = true -> no_ph (fst (block_code k base l)).
-Proof. intros H. exact (block_no_ph (max_height l) (stmt_no_ph _) l k base (le_n _) H). Qed.
+Lemma scode_no_ph l n k scope base : wf_stmts false n l = true -> no_ph (fst (scode k scope base l)).
+Proof. intros H. exact (list_no_ph (max_height l) (stmt_no_ph _) l n k scope base (le_n _) H). Qed.
+Lemma block_code_no_ph l n k scope base : wf_stmts false n l = true -> no_ph (fst (block_code k scope base l)).
+Proof. intros H. exact (block_no_ph (max_height l) (stmt_no_ph _) l n k scope base (le_n _) H). Qed.
 
 (* the offset only matters where there are placeholders *)
 Lemma npatch_off (lp : bool) bt ct code o1 o2 :
